@@ -1,3 +1,158 @@
-"""kx: bounded Kani stand-ins (filled in later)."""
-def run_families(repo, fams, tier, tag):
-    return {"failed": [], "undecided": ["kani families not built yet: %s" % fams], "checks": 0, "harnesses": []}
+#!/usr/bin/env python3
+"""kx: bounded Kani stand-ins.
+
+The harness file /verif/kani/verif_kani.rs is copied into a SCRATCH COPY of the repo under test
+(outside /repo and /verif), registered in the copy's lib.rs under cfg(kani), and the requested
+harnesses are run with `cargo kani`.  The scratch copy and its target/ are removed afterwards.
+Results are labelled *bounded* (concrete shapes; see each harness) and never counted as proved.
+"""
+import os
+import re
+import shutil
+import subprocess
+import sys
+import tempfile
+import time
+
+HERE = os.path.dirname(os.path.abspath(__file__))
+VERIF = os.path.dirname(HERE)
+HARNESS_FILE = os.path.join(VERIF, "kani", "verif_kani.rs")
+
+
+def list_harnesses():
+    txt = open(HARNESS_FILE).read()
+    out = []
+    for m in re.finditer(r"^\s*(h|hp|hl)!\((\w+),\s*(\w+)", txt, re.M):
+        out.append({"name": m.group(2), "family": m.group(3), "should_panic": m.group(1) == "hp"})
+    return out
+
+
+def select(fams):
+    """fams: list of regexes over harness names."""
+    hs = list_harnesses()
+    sel = []
+    for h in hs:
+        if any(re.search(f, h["name"]) for f in fams):
+            sel.append(h)
+    return sel
+
+
+def run_families(repo, fams, tier, tag, jobs=16, timeout_s=1500):
+    t0 = time.time()
+    res = {"failed": [], "undecided": [], "checks": 0, "harnesses": [], "bounded": True,
+           "bounds": "concrete shapes named in each harness (CxR <= 3x3 / 4x1), u8 or drop-ledger cells, symbolic indices, probe cells, capacity mode and drain splits; loops unwound 8 times with unwinding assertions",
+           "tool": "kani 0.68 / cbmc"}
+    sel = select(fams)
+    if not sel:
+        res["undecided"].append("no harness matches %s" % fams)
+        return res
+    scratch = tempfile.mkdtemp(prefix="toodee-kx-%s-" % tag)
+    try:
+        dst = os.path.join(scratch, "toodee")
+        shutil.copytree(repo, dst, ignore=shutil.ignore_patterns("target", ".git", "_out", "tests"))
+        shutil.copy(HARNESS_FILE, os.path.join(dst, "src", "verif_kani.rs"))
+        lib = os.path.join(dst, "src", "lib.rs")
+        with open(lib, "a") as f:
+            f.write("\n#[cfg(kani)]\nmod verif_kani;\n")
+        env = dict(os.environ)
+        env["CARGO_NET_OFFLINE"] = "true"
+        env["CARGO_TARGET_DIR"] = os.path.join(scratch, "target")
+        base = ["cargo", "kani", "--output-format", "regular"]
+        res["cmd"] = "cd <scratch copy of %s> && CARGO_NET_OFFLINE=true cargo kani --output-format regular --harness <each of %d harnesses> (pool of %d processes)" % (repo, len(sel), jobs)
+
+        def run_one(h):
+            try:
+                p = subprocess.run(base + ["--harness", h["name"]], cwd=dst, env=env, stdout=subprocess.PIPE,
+                                   stderr=subprocess.STDOUT, universal_newlines=True, timeout=timeout_s)
+                return p.stdout
+            except subprocess.TimeoutExpired:
+                return "TIMEOUT %s" % h["name"]
+
+        outs = []
+        # warm-up: the first run compiles the crate once; the pool then shares the build
+        outs.append(run_one(sel[0]))
+        from concurrent.futures import ThreadPoolExecutor
+        with ThreadPoolExecutor(max_workers=jobs) as ex:
+            outs += list(ex.map(run_one, sel[1:]))
+        for o in outs:
+            if o.startswith("TIMEOUT"):
+                res["undecided"].append("kani timed out: %s" % o)
+        out = "\n".join(outs)
+        parse(out, sel, res)
+    finally:
+        shutil.rmtree(scratch, ignore_errors=True)
+    res["wall_s"] = round(time.time() - t0, 1)
+    return res
+
+
+def parse(out, sel, res):
+    by = {h["name"]: h for h in sel}
+    # with -j the per-harness logs are printed as blocks starting "Thread N: Checking harness X..." or "Checking harness X..."
+    blocks = re.split(r"(?m)^(?:Thread \d+:\s*)?Checking harness ", out)
+    seen = set()
+    for b in blocks[1:]:
+        m = re.match(r"([\w:]+)\.\.\.", b)
+        if not m:
+            continue
+        full = m.group(1)
+        name = full.split("::")[-1]
+        if name not in by:
+            continue
+        seen.add(name)
+        h = by[name]
+        status = None
+        ms = re.search(r"VERIFICATION:-\s*(SUCCESSFUL|FAILED)", b)
+        if ms:
+            status = ms.group(1)
+        nchecks = len(re.findall(r"(?m)^Check \d+:", b))
+        res["checks"] += nchecks
+        tm = re.search(r"Verification Time:\s*([\d.]+)s", b)
+        hrec = {"harness": name, "family": h["family"], "status": status, "checks": nchecks,
+                "time_s": float(tm.group(1)) if tm else None, "should_panic": h["should_panic"]}
+        res["harnesses"].append(hrec)
+        # failed checks
+        fails = []
+        for cm in re.finditer(r"(?ms)^Check \d+: (\S+)\n\s*- Status: (\w+)\n\s*- Description: \"(.*?)\"\n(?:\s*- Location: (.*?)\n)?", b):
+            cid, st, desc, loc = cm.group(1), cm.group(2), cm.group(3), cm.group(4)
+            if "RETURNED-NORMALLY" in desc:
+                if st == "SATISFIED":
+                    fails.append(("call with invalid arguments returned normally (must panic)", loc))
+                continue
+            if st == "FAILURE":
+                fails.append((desc, loc))
+        if h["should_panic"]:
+            # every failure in a must-panic harness that is an assertion of the CRATE is the expected
+            # panic; only harness-side properties count: RETURNED-NORMALLY cover, C01/C05/C11 asserts,
+            # and memory-safety checks
+            fails = [(d, l) for (d, l) in fails
+                     if "returned normally" in d or re.match(r"C\d\d ", d) or is_memory_check(d)]
+            if status is None:
+                res["undecided"].append("%s: no verdict" % name)
+        else:
+            if status is None:
+                res["undecided"].append("%s: no verdict (timeout / out of memory?)" % name)
+            elif status == "FAILED" and not fails:
+                fails.append(("verification failed (see kani output)", None))
+        for d, l in fails:
+            res["failed"].append({"harness": name, "check": d, "detail": "kani harness %s (%s): %s at %s" % (name, h["family"], d, l)})
+    for h in sel:
+        if h["name"] not in seen:
+            res["undecided"].append("%s: harness not run (compile error?) %s" % (h["name"], tail_err(out)))
+            break
+
+
+def is_memory_check(desc):
+    return any(k in desc for k in ("dereference failure", "pointer", "out of bounds", "double free", "memory leak", "misaligned",
+                                   "unwinding assertion", "arithmetic overflow", "attempt to"))
+
+
+def tail_err(out):
+    errs = [l for l in out.split("\n") if l.startswith("error")]
+    return " | ".join(errs[:3])
+
+
+if __name__ == "__main__":
+    import json
+    repo = os.environ.get("VERIF_REPO", "/repo")
+    r = run_families(repo, sys.argv[1:], "quick", "cli")
+    print(json.dumps(r, indent=1))
